@@ -42,8 +42,10 @@ CLAIMS = {
             "Every trait of the grammar tier, every generated group family, the hand-written structure members (five wrap_with forms) and every "
             "runtime wrapper type x element type (argument, return and fn-pointer-field position) is expanded by the real generator driven as "
             "a library and the printed expansion is compiled with improper_ctypes_definitions/improper_ctypes denied; a positive-control "
-            "crate (tuple, nested slice, Rust-ABI fn pointer) must be rejected or the run is a machinery failure; a token-level pass checks "
-            "that every vtable field is an extern \"C\" fn pointer and every generated struct carries repr(C)/transparent.",
+            "crate (tuple, nested slice, Rust-ABI fn pointer) must be rejected or the run is a machinery failure; a token-level pass over the same expansions AND over "
+            "the library's own built-in external traits (cglue_builtin_ext_traits!(), without features and with cglue-gen's task + futures features) checks "
+            "that every vtable field is an extern \"C\" fn pointer whose signature contains no Rust-only type at any depth (pointees included: rustc's "
+            "definition lints stop at pointers) and that every generated struct carries repr(C)/transparent.",
             "DESIGN.md §4 C03",
             "rustc's FFI lints are the yardstick (the property's own wording); programs outside G are not claimed.",
             "exhaustive enumeration of a bounded program grammar, compiler lint as per-program oracle",
@@ -71,7 +73,7 @@ CLAIMS = {
             "exhaustive enumeration of a bounded header grammar through the real tool, executed against mock vtables",
             "gen/bindgen_c17.py"),
     "C18": ("exploration",
-            "Same header space plus several context types, wrapped-return structs, planted foreign declarations with CGlue-like names, all config "
+            "Same header space plus several context types, wrapped-return structs, planted foreign declarations with CGlue-like names, users of const TypeLayout* (undeclared / struct / C++ alias), all config "
             "combinations and 8 argument layouts: the processed header must compile on its own (gcc -std=c99 / g++ -std=c++11), in C every object type must keep the size the Rust side gives it, R fresh-process "
             "runs must be byte-identical (R=5/25) and a further run over a stale, longer file at the output path must give the same bytes, planted declarations must survive verbatim and in order, the stub cbindgen must receive exactly the "
             "post-`--` arguments minus the output path, and the processed header must land in that path.",
@@ -172,14 +174,15 @@ CLAIMS = {
             "All four integer-result functions on every Ok/Err x shipped error type with drop-counting payloads and a poisoned output slot; "
             "ALL 2^32 raw OS error codes through encode/decode (both tiers); every listed non-OS ErrorKind. Generated half: every trait "
             "of the grammar using int_result / no_int_result / a result alias (with and without payload, droppable payload, io::Error, "
-            "fmt::Error) x receivers x call sequences through all containers, differential against the direct call.",
+            "fmt::Error) x receivers x call sequences through all containers, differential against the direct call; and every entry marked to "
+            "use integer results (method-level, trait-level, alias, both levels in one trait) must have a C signature that returns the i32 code.",
             "DESIGN.md §4 C13",
             "std::io::Error::raw_os_error is the reference for 'same OS code'.",
             "exhaustive enumeration of the complete input domain (2^32 codes) on the real code",
             "h_runtime/c13 + h_objects/objs"),
     "C14": ("exploration",
-            "Every string of up to L symbols over {NUL, a, b, 2-byte, 3-byte sequence} through From<&str>, From<String>, From<&[u8]>; the raw "
-            "buffer is inspected through the tracking allocator (one block, exactly prefix+1 bytes, exactly one NUL), all value-semantics "
+            "Every string of up to L symbols over {NUL, a, b, 2-byte, 3-byte sequence} through From<&str>, From<String> (exact capacity and 1 / 7 / 64 bytes of spare capacity), From<&[u8]>; the raw "
+            "buffer is inspected through the tracking allocator (one block holding the prefix and then its one NUL), all value-semantics "
             "methods are compared with the expected prefix, and the allocation must be freed once with its allocated size.",
             "DESIGN.md §4 C14",
             "Inputs longer than the bound not covered; invalid UTF-8 byte slices are outside the property's quantifier.",
@@ -199,7 +202,8 @@ CLAIMS = {
             "Sequential half: a scripted future/stream/sink behind trait_obj! is polled with a counting caller-side waker; every history up "
             "to the depth bound over {clone/wake_by_ref of cx.waker(), clone/wake/wake_by_ref/drop of any live foreign-side waker} x {inside a new "
             "poll, inside the same poll, after the poll, after the poll on another OS thread}, plus the caller dropping its own waker while "
-            "foreign wakers live, with an ordinary and with a null-data caller waker, and an opaque future polled inside another opaque future, is executed on the real code; after every step "
+            "foreign wakers live, with an ordinary and with a null-data caller waker, an opaque future polled inside another opaque future, and a poll entered from another module (per-poll record assembled through its "
+            "published layout with that module's functions; the opaque words must not be interpreted locally), is executed on the real code; after every step "
             "the caller's wake count must equal the wake operations and its refcount must never go below the start value and return to it when "
             "no foreign waker is left; it is never used after its last release and never released while a foreign waker lives. Concurrent half: loom explores all interleavings of 2-3 threads operating on foreign wakers over the real "
             "task/mod.rs compiled against a loom-backed tarc::BaseArc.",
